@@ -44,6 +44,9 @@ def plan(tier, seed):
     # every configuration once more with long fixed workloads (state that only breaks after hundreds of packets)
     nlong = explore.add_long(cfgs, 200 if quick else 600, burst=400)
     ndebug = explore.add_debug_variants(cfgs)      # the same with every element constructed with debug=True
+    # an empty committed bucket (CBS 0) is a legal parameterisation: nothing is ever green / every packet waits
+    cfgs.append(dict(kind="tr", cir=8, cbs=0, pir=16, pbs=4, N=n, gaps=["S", 1, 2, 8], sizes=[1, 2, 4], order=0))
+    cfgs.append(dict(kind="tr", cir=8, cbs=0, pir=None, pbs=None, N=n, gaps=["S", 1, 2, 8], sizes=[1, 2, 4], order=0))
     return {"cfgs": cfgs, "budget": None,
             "bound": ("%d long fixed workloads (periodic arrival patterns); %d configurations repeated with debug=True; " % (nlong, ndebug)) + ("N<=%d; TokenBucket rate {8,16} x bucket {1,2,3} x peak {None,16,32}; TwoRate CIR 8, CBS {2,3}, PIR {None,16}, PBS {2,4}" % n)}
 
